@@ -148,7 +148,7 @@ def build_driver(engine, edir):
     rc, out2 = sh(["ocamlfind", "ocamlopt", "-w", "-a", "model.mli", "model.ml"] + srcs + ["main.ml", "-o", os.path.join(BUILD, "driver_" + engine)], cwd=od, timeout=900)
     return rc == 0, out + out2
 
-def prepare(engines, targets):
+def prepare(engines, targets, pid=None):
     """regenerate + coq build of `targets` (.vo) + one driver per engine; serialised by a file lock.
     engines: list of (name, coq dir, [model .vo targets])"""
     t0 = time.time()
@@ -164,6 +164,8 @@ def prepare(engines, targets):
             res["drivers"][name] = (dok, dout)
         res["driver_ok"] = all(v[0] for v in res["drivers"].values())
         res["driver_out"] = "\n".join(v[1] for v in res["drivers"].values() if not v[0])
+        res["hygiene"] = hygiene()
+        res["proof"] = check_property_file(pid) if pid and os.path.exists(os.path.join(COQ, "Properties", pid + ".v")) else None
     res["prepare_s"] = round(time.time() - t0, 1)
     return res
 
